@@ -1,6 +1,6 @@
 """C12 - results depend only on the input: no state leaks, no hash-seed dependence.
 
-histories  every sequence of <=2 (quick) / <=3 (thorough) inputs from a 18-input alphabet (valid modules with / without
+histories  every sequence of <=2 (quick) / <=3 (thorough) inputs from a 20-input alphabet (valid modules with / without
            MODULE-IDENTITY and REVISION, with an enterprise OID, with a table, SMIv1 style, importing another input;
            lexical error on line 4, unterminated MACRO, text ending inside a comment, truncated text, syntax error after
            a multi-line string, duplicate symbol) fed to ONE parser, ONE symbol-table + code generator pair (JSON and
@@ -23,7 +23,7 @@ from mc import core, env
 from mc.env import error
 
 BOUNDS = {
-    'quick': 'all sequences of <=2 inputs (18-input alphabet) on parser / generators / compiler; triple repetition; 8 hash seeds',
+    'quick': 'all sequences of <=2 inputs (20-input alphabet) on parser / generators / compiler; triple repetition; 8 hash seeds',
     'thorough': 'all sequences of <=3 inputs; 64 hash seeds',
 }
 ASSUMPTIONS = ['time stamp, host and user lines of generated output are masked',
@@ -167,7 +167,25 @@ sigmaMode OBJECT-TYPE SYNTAX Mode MAX-ACCESS read-write STATUS current DESCRIPTI
 END
 """
 
-INPUTS = [('V_SAMENAMES', 'SIGMA-MIB', V_SAMENAMES), ('V_MODE_INT', 'PI-MIB', V_MODE_INT), ('V_MODE_OCT', 'RHO-MIB', V_MODE_OCT), ('E_UNKTYPE', 'NU-MIB', E_UNKTYPE), ('E_UNKPARENT', 'XI-MIB', E_UNKPARENT), ('E_GEN', 'OMICRON-MIB', E_GEN),
+V_TWOENT = """TAU-MIB DEFINITIONS ::= BEGIN
+IMPORTS enterprises, OBJECT-TYPE, Integer32 FROM SNMPv2-SMI;
+tauProducts OBJECT IDENTIFIER ::= { enterprises 4242 }
+tauLegacy OBJECT IDENTIFIER ::= { enterprises 9999 }
+tauOne OBJECT-TYPE SYNTAX Integer32 MAX-ACCESS read-only STATUS current DESCRIPTION "o" ::= { tauProducts 1 }
+tauTwo OBJECT-TYPE SYNTAX Integer32 MAX-ACCESS read-only STATUS current DESCRIPTION "o" ::= { tauLegacy 1 }
+tauThree OBJECT IDENTIFIER ::= { tauLegacy 2 }
+tauFour OBJECT IDENTIFIER ::= { enterprises 1717 3 }
+END
+"""
+E_TWOPARENTS = """UPSILON-MIB DEFINITIONS ::= BEGIN
+upsA OBJECT IDENTIFIER ::= { nowhereOne 1 }
+upsB OBJECT IDENTIFIER ::= { nowhereTwo 2 }
+upsC OBJECT IDENTIFIER ::= { nowhereThree 3 }
+upsD OBJECT IDENTIFIER ::= { nowhereFour 4 }
+END
+"""
+
+INPUTS = [('V_TWOENT', 'TAU-MIB', V_TWOENT), ('E_TWOPARENTS', 'UPSILON-MIB', E_TWOPARENTS), ('V_SAMENAMES', 'SIGMA-MIB', V_SAMENAMES), ('V_MODE_INT', 'PI-MIB', V_MODE_INT), ('V_MODE_OCT', 'RHO-MIB', V_MODE_OCT), ('E_UNKTYPE', 'NU-MIB', E_UNKTYPE), ('E_UNKPARENT', 'XI-MIB', E_UNKPARENT), ('E_GEN', 'OMICRON-MIB', E_GEN),
           ('V_REV', 'ALPHA-MIB', V_REV), ('V_NOID', 'BETA-MIB', V_NOID), ('V_TBL', 'GAMMA-MIB', V_TBL), ('V_V1', 'DELTA-MIB', V_V1),
           ('V_IMP', 'EPSILON-MIB', V_IMP), ('V_NOENT', 'ZETA-MIB', V_NOENT), ('E_LEX4', 'ETA-MIB', E_LEX4),
           ('E_MACRO', 'THETA-MIB', E_MACRO), ('V_COMMENT', 'IOTA-MIB', V_COMMENT), ('E_TRUNC', 'KAPPA-MIB', E_TRUNC),
@@ -253,6 +271,7 @@ def make_compiler(backend, written):
 
 
 comp_last = [None]
+WITH_MESSAGE = [False]   # the seed jobs also compare the text of error messages
 
 
 def status_obs(res):
@@ -262,6 +281,8 @@ def status_obs(res):
         if st == 'failed':
             o['error'] = type(getattr(st, 'error', None)).__name__
             o['lineno'] = getattr(getattr(st, 'error', None), 'lineno', None)
+            if WITH_MESSAGE[0]:
+                o['message'] = re.sub(r' at 0x[0-9a-f]+', '', str(getattr(getattr(st, 'error', None), 'msg', '')))
         for a in ('identity', 'revision', 'enterprise'):
             o[a] = str(getattr(st, a, None))
         o['oids'] = sorted(getattr(st, 'oids', ()) or ())
@@ -376,6 +397,7 @@ SEED_JOB = r'''
 import sys, json, hashlib
 sys.path.insert(0, %(verif)r); sys.path.insert(0, %(repo)r)
 from mc.checks import C12
+C12.WITH_MESSAGE[0] = True
 out = {}
 for backend in ('json', 'pysnmp'):
     for idx, (label, name, text) in enumerate(C12.INPUTS):
